@@ -215,6 +215,7 @@ fn build_binary_op(
         });
         quote! {
             #[automatically_derived]
+            #[allow(deprecated)]
             impl #impl_g #trait_<#rhs_ty> for #self_ty #wheres {
                 type Output = #this_ty;
                 fn #func_name(self, __rhs: #rhs_ty) -> Self::Output {
@@ -265,6 +266,7 @@ fn build_assign_op(
         });
         quote! {
             #[automatically_derived]
+            #[allow(deprecated)]
             impl #impl_g #trait_<#rhs_ty> for #this_ty #wheres {
                 fn #func_name(&mut self, __rhs: #rhs_ty) {
                     #(#exprs;)*
@@ -312,6 +314,7 @@ fn build_unary_op(
         });
         quote! {
             #[automatically_derived]
+            #[allow(deprecated)]
             impl #impl_g #trait_ for #self_ty #wheres {
                 type Output = #this_ty;
                 fn #func_name(self) -> Self::Output {
@@ -354,6 +357,7 @@ fn build_clone_for_struct(
     let wheres = wcb.build(|ty| quote!(#ty : #trait_));
     Ok(quote! {
         #[automatically_derived]
+        #[allow(deprecated)]
         impl #impl_g #trait_ for #this_ty #wheres {
             fn clone(&self) -> Self {
                 #this_ty_ident #ctor_args
@@ -418,6 +422,7 @@ fn build_clone_for_enum(
     };
     Ok(quote! {
         #[automatically_derived]
+        #[allow(deprecated)]
         #[allow(non_snake_case)]
         impl #impl_g #trait_ for #this_ty #wheres {
             fn clone(&self) -> Self {
@@ -453,6 +458,7 @@ fn build_copy_for_struct(
     let wheres = wcb.build(|ty| quote!(#ty : #trait_));
     Ok(quote! {
         #[automatically_derived]
+        #[allow(deprecated)]
         impl #impl_g #trait_ for #this_ty #wheres {}
     })
 }
@@ -480,6 +486,7 @@ fn build_copy_for_enum(
     let wheres = wcb.build(|ty| quote!(#ty : #trait_));
     Ok(quote! {
         #[automatically_derived]
+        #[allow(deprecated)]
         impl #impl_g #trait_ for #this_ty #wheres {}
     })
 }
@@ -514,6 +521,7 @@ fn build_debug_for_struct(
     let ref_def = build_debug_ref_def();
     Ok(quote! {
         #[automatically_derived]
+        #[allow(deprecated)]
         impl #impl_g #trait_ for #this_ty #wheres {
             fn fmt(&self, __f: &mut ::core::fmt::Formatter) -> ::core::fmt::Result {
                 #ref_def
@@ -564,6 +572,7 @@ fn build_debug_for_enum(
     let ref_def = build_debug_ref_def();
     Ok(quote! {
         #[automatically_derived]
+        #[allow(deprecated)]
         #[allow(non_snake_case)]
         impl #impl_g #trait_ for #this_ty #wheres {
             fn fmt(&self, __f: &mut ::core::fmt::Formatter) -> ::core::fmt::Result {
@@ -665,6 +674,7 @@ fn build_default_for_struct(
     let wheres = wcb.build(|ty| quote!(#ty : #trait_));
     Ok(quote! {
         #[automatically_derived]
+        #[allow(deprecated)]
         impl #impl_g #trait_ for #this_ty #wheres {
             fn default() -> Self {
                 #value
@@ -732,6 +742,7 @@ fn build_default_for_enum(
     let wheres = wcb.build(|ty| quote!(#ty : #trait_));
     Ok(quote! {
         #[automatically_derived]
+        #[allow(deprecated)]
         impl #impl_g #trait_ for #this_ty #wheres {
             fn default() -> Self {
                 #value
@@ -810,6 +821,7 @@ fn build_deref_for_struct(
     let wheres = wcb.build(|ty| quote!(#ty : #trait_));
     Ok(quote! {
         #[automatically_derived]
+        #[allow(deprecated)]
         impl #impl_g #trait_ for #this_ty #wheres {
             #content
         }
